@@ -365,3 +365,16 @@ def r_conditions(rec):
 
 REPLAYERS["C02.conditions"] = r_conditions
 REPLAYERS["pyanalyze.stacked_scopes.extract_constraints"] = r_conditions
+
+
+def w_d54(rec):
+    """`==` narrowing to the literal: equal objects of another type are lost"""
+    from pyanalyze.predicates import EqualsPredicate
+    from pyanalyze.value import KnownValue, TypedValue
+    got = EqualsPredicate(True, _ctx())(TypedValue(object), True)
+    lost = [o for o in (1, 1.0) if o == True and got is not None and not got.is_assignable(KnownValue(o), _ctx())]  # noqa: E712
+    return bool(lost), (f"EqualsPredicate(True)(object, positive=True) = {got}: in the branch where `q == True` holds q is narrowed to the literal, but {lost} also "
+                        f"compare equal to True and take that branch (q: object; `if q == True:`)")
+
+
+REPLAYERS["C02.D54"] = w_d54
